@@ -76,6 +76,17 @@ fn read_with_sizes(stream: &mut jubako::reader::ByteStream, total: usize, size_s
             4 => rng.range(1, 300) as usize,
             _ => total + 10,
         };
+        if rng.below(10) == 0 {
+            // finish with read_to_end from wherever the cursor is
+            let mut rest = Vec::new();
+            match stream.read_to_end(&mut rest) {
+                Ok(_) => {
+                    out.extend_from_slice(&rest);
+                    break;
+                }
+                Err(e) => return Err(format!("read_to_end error {:?}", e.kind())),
+            }
+        }
         let mut buf = vec![0u8; want];
         match stream.read(&mut buf) {
             Ok(0) => break,
